@@ -99,6 +99,10 @@ type c18Call struct {
 	srvStream   atomic.Int64
 	ansStream   atomic.Int64 // stream and position (response message number) of the server's answer
 	ansSeq      atomic.Int64
+
+	rl        *c18RLSpec   // ResolveLock calls only
+	invokeSeq int64        // logical time (run.seq) just before the call was handed to the client
+	returnSeq atomic.Int64 // logical time when it returned / its callback ran
 }
 
 func (c *c18Call) doCancel() {
@@ -117,6 +121,9 @@ func (c *c18Call) describe() map[string]any {
 	}
 	if c.err != nil {
 		m["err"] = c.err.Error()
+	}
+	if c.rl != nil {
+		m["resolve_lock"], m["invoke_seq"], m["return_seq"] = c.rl, c.invokeSeq, c.returnSeq.Load()
 	}
 	if !c.end.IsZero() {
 		m["elapsed_ms"] = c.end.Sub(c.start).Milliseconds()
@@ -276,6 +283,10 @@ type c18Run struct {
 	bg     sync.WaitGroup
 	ccIDs  sync.Map // *grpc.ClientConn -> id (keeps the conn alive so that ids are never reused)
 	ccNext atomic.Int64
+
+	seq     atomic.Int64 // logical clock shared by callers and server (ResolveLock oracle)
+	rlMu    sync.Mutex
+	rlExecs map[string][]*c18RLExec // identity -> executions the server performed
 }
 
 func (run *c18Run) count(name string, n int) {
@@ -368,6 +379,8 @@ func (c *c18Call) request() *tikvrpc.Request {
 		req = tikvrpc.NewRequest(tikvrpc.CmdCop, &coprocessor.Request{Data: key})
 	case c18KindBatchGet:
 		req = tikvrpc.NewRequest(tikvrpc.CmdBatchGet, &kvrpcpb.BatchGetRequest{Keys: [][]byte{key}, Version: 1})
+	case c18KindResolveLock:
+		req = c.rl.request()
 	default:
 		req = tikvrpc.NewRequest(tikvrpc.CmdMvccGetByKey, &kvrpcpb.MvccGetByKeyRequest{Key: key})
 	}
@@ -405,6 +418,7 @@ func c18RespID(kind int, resp *tikvrpc.Response) (typeOK bool, id []byte, typ st
 
 func (run *c18Run) finish(c *c18Call, resp *tikvrpc.Response, err error) {
 	now := time.Now()
+	c.returnSeq.CompareAndSwap(0, run.seq.Add(1))
 	if n := c.returns.Add(1); n > 1 {
 		run.violate("exactly-once:async-callback-invoked-twice", fmt.Sprintf("callback of %s invoked %d times", c.id, n), c)
 		return
@@ -419,7 +433,7 @@ func (run *c18Run) newCall(rng *rand.Rand, caller, seq int) *c18Call {
 	s := run.scn
 	c := &c18Call{caller: caller, seq: seq, done: make(chan struct{})}
 	c.id = fmt.Sprintf("v%d.%d/c%d/q%d", run.factor, s.Idx, caller, seq)
-	c.kind = rng.Intn(c18NKinds - 1)
+	c.kind = rng.Intn(c18NPlainKinds)
 	if rng.Intn(100) < s.UnaryPct {
 		c.kind = c18KindMvcc
 	}
@@ -525,6 +539,7 @@ func (run *c18Run) issue(c *c18Call) {
 			run.cl.Close()
 		}()
 	}
+	c.invokeSeq = run.seq.Add(1)
 	if c.async {
 		cb := async.NewCallback(run.rl, func(resp *tikvrpc.Response, err error) { run.finish(c, resp, err) })
 		run.cl.SendRequestAsync(ctx, run.srv.addr, req, cb)
@@ -604,7 +619,7 @@ func c18ErrClass(c *c18Call, err error) string {
 
 // c18RunScenario executes one scenario and returns the suspect (watchdog) classes.
 func c18RunScenario(t *testing.T, r *vrep.Report, scn *c18Scn, factor int) []string {
-	run := &c18Run{r: r, scn: scn, factor: factor, local: map[string]int{}, rl: async.NewRunLoop()}
+	run := &c18Run{r: r, scn: scn, factor: factor, local: map[string]int{}, rl: async.NewRunLoop(), rlExecs: map[string][]*c18RLExec{}}
 	restore := config.UpdateGlobal(func(conf *config.Config) {
 		conf.TiKVClient.MaxBatchSize = scn.MaxBatch
 		conf.TiKVClient.GrpcConnectionCount = scn.Conns
@@ -627,7 +642,7 @@ func c18RunScenario(t *testing.T, r *vrep.Report, scn *c18Scn, factor int) []str
 		return streamer(metadata.AppendToOutgoingContext(ctx, c18CCMetaKey, run.ccID(cc)), desc, cc, method, opts...)
 	}
 	run.rpc = NewRPCClient(WithGRPCDialOptions(grpc.WithChainStreamInterceptor(tagStream)))
-	run.cl = NewReqCollapse(run.rpc)
+	run.cl = NewReqCollapse(NewInterceptedClient(run.rpc)) // wrapped as tikv.NewKVStore does
 	sendPanics0 := atomic.LoadInt64(&BatchSendLoopPanicCounter)
 
 	// the executor of the async callbacks
@@ -676,6 +691,7 @@ func c18RunScenario(t *testing.T, r *vrep.Report, scn *c18Scn, factor int) []str
 			}
 		}(i)
 	}
+	run.startResolvers(&wg, c18Directed[scn.Shape] != nil)
 	joined := make(chan struct{})
 	go func() { wg.Wait(); close(joined) }()
 	// Callers issue their sync calls one after the other and each call is bounded by its own time-out, so there is no
@@ -721,7 +737,7 @@ joinLoop:
 		for _, f := range fwds {
 			okN := 0
 			for try := 0; try < 160 && slow < 2 && okN < int(scn.Conns)*2; try++ {
-				c := &c18Call{caller: -1, seq: seq, done: make(chan struct{}), probe: true, kind: seq % (c18NKinds - 1), fwd: f,
+				c := &c18Call{caller: -1, seq: seq, done: make(chan struct{}), probe: true, kind: seq % c18NPlainKinds, fwd: f,
 					timeout: scn.LongTimeout, id: fmt.Sprintf("v%d.%d/probe/q%d", factor, scn.Idx, seq)}
 				seq++
 				run.issue(c)
@@ -889,6 +905,8 @@ func (run *c18Run) evaluate(all []*c18Call) {
 			// (2) identity
 			typeOK, id, typ := c18RespID(c.kind, resp)
 			switch {
+			case c.rl != nil:
+				run.evalResolveLock(c, resp, api)
 			case !typeOK:
 				run.violate("identity:"+api+":response-of-another-request-type", fmt.Sprintf("call %s (%s) got a %s carrying %q", c.id, c18KindName[c.kind], typ, id), c)
 			case string(id) != c.id:
@@ -935,6 +953,7 @@ func (run *c18Run) evaluate(all []*c18Call) {
 			}
 		}
 	}
+	run.rlSummary(all)
 	var oc []string
 	for k := range outcomes {
 		oc = append(oc, k)
@@ -1029,6 +1048,12 @@ func TestVerifC18BatchMultiplex(t *testing.T) {
 	r.Floor("srv_dropped", 10)
 	r.Floor("srv_batches_multi", 100)
 	r.Floor("probes_ok_after_restart", 2)
+	r.Floor("rl_ok", 1200*q)
+	r.Floor("rl_ok_dup", 200*q)
+	r.Floor("rl_ok_other_region", 200*q)
+	r.Floor("rl_ok_lite", 100*q)
+	r.Floor("rl_ok_batch", 50*q)
+	r.Floor("rl_shared_executions", 30*q)
 }
 
 func c18Uniq(s []string) []string {
@@ -1072,7 +1097,7 @@ func c18ScriptStaleEpoch(first, second string) func(run *c18Run) {
 	return func(run *c18Run) {
 		seq := 0
 		mk := func(async bool, fwd string, srvMode int, timeout time.Duration) *c18Call {
-			c := &c18Call{caller: -2, seq: seq, done: make(chan struct{}), kind: seq % (c18NKinds - 1), fwd: fwd, async: async, srvMode: srvMode,
+			c := &c18Call{caller: -2, seq: seq, done: make(chan struct{}), kind: seq % c18NPlainKinds, fwd: fwd, async: async, srvMode: srvMode,
 				timeout: timeout, id: fmt.Sprintf("v%d.%d/directed/q%d", run.factor, run.scn.Idx, seq)}
 			seq++
 			return c
